@@ -315,6 +315,52 @@ def run_history(ctx, pool, gold, limit, hno, alts):
     ok_idxs = [i for i in idxs if 'refused' not in gold[i]]
     seen_keys = set()
     try:
+        # every history begins with scans that are under way AT THE SAME TIME on one decoder, with options of their own (no filter /
+        # a filter that accepts nothing / one that accepts everything / metadata only): each delivers exactly its own selection
+        if len(ok_idxs) >= 2:
+            from pybufrkit.decoder import generate_bufr_message
+            dn = ['plain', 'c1', 'cn'][hno % 3]
+            plans = [({}, True), (dict(filter_expr='${%edition} < 0'), False), (dict(filter_expr='${%edition} >= 0'), True),
+                     (dict(filter_expr='${%edition} < 0', info_only=True), False)]
+            if hno % 2:
+                plans.reverse()
+            scans = []
+            for kw, delivers in plans:
+                members = [rng.choice(ok_idxs) for _ in range(2)]
+                stream = b'\r\r\n'.join(pool[j][1] for j in members)
+                scans.append([generate_bufr_message(decs[dn], stream, **kw), members if delivers else [], 0, kw])
+            hist.append('four scans started on [%s] with options %r' % (dn, [sc[3] for sc in scans]))
+            live = list(scans)
+            while live:
+                sc = rng.choice(live)
+                ctx.count('prologue_scan_steps')
+                try:
+                    m = next(sc[0])
+                except StopIteration:
+                    if sc[2] < len(sc[1]):
+                        ctx.violate('history-dependence/scans-at-the-same-time/ends-early', 'a scan with options %r, advanced alternately with three other scans on the same '
+                                    'decoder, delivered %d of its %d messages' % (sc[3], sc[2], len(sc[1])), dict(history=hist, op='scan', options=repr(sc[3])))
+                    live.remove(sc)
+                    continue
+                except Exception as e:
+                    ctx.violate('history-dependence/scans-at-the-same-time/raises:%s' % type(e).__name__, 'a scan with options %r, advanced alternately with three other scans on '
+                                'the same decoder, raised %r' % (sc[3], e), dict(history=hist, op='scan', options=repr(sc[3])), exc=e)
+                    live.remove(sc)
+                    continue
+                if sc[2] >= len(sc[1]):
+                    ctx.violate('history-dependence/scans-at-the-same-time/delivers-what-its-filter-rejects', 'a scan with options %r, advanced alternately with three other '
+                                'scans on the same decoder, delivered a message its own filter rejects' % (sc[3],), dict(history=hist, op='scan', options=repr(sc[3])))
+                    live.remove(sc)
+                    continue
+                j = sc[1][sc[2]]
+                sc[2] += 1
+                if not sc[3].get('info_only'):
+                    try:
+                        got = DG.message_digest(m)
+                    except Exception as e:
+                        got = {'digest-raises': type(e).__name__}
+                    compare(ctx, 'decode', got, gold[j]['digest'], j, pool[j][0], hist, -1, 'scans-at-the-same-time/decode', 'start')
+                ctx.evaluated((hno, ctx.shard, 'prologue', len(hist), sc[2]), True)
         for step in range(STEPS[ctx.tier]):
             if not ctx.more():
                 break
